@@ -415,7 +415,12 @@ def _findall_runs(ex, st, ctx, pattern, subject, node):
     for k in reversed(range(K)):
         seq = z3.If(n > k, z3.Concat(z3.Unit(VStr(rs[k])), seq if k < K - 1 else z3.If(n > K, tail, EMPTY_SEQ)),
                     EMPTY_SEQ)
-    return b.new_list_seq(ex, st, seq, T_LIST)
+    fa = fresh("findall", SeqV)
+    qi = z3.Const("q!fa", I)
+    ex.assumptions.append(fa == seq)
+    # findall yields strings (A2 for `re`): stated on the result itself, so that it is usable without the run structure
+    ex.assumptions.append(z3.ForAll([qi], z3.Implies(z3.And(qi >= 0, qi < z3.Length(fa)), is_Str(fa[qi]))))
+    return b.new_list_seq(ex, st, fa, T_LIST)
 
 
 def call_class(ex, st, ctx, name, args, kwargs, node):
@@ -567,6 +572,29 @@ def spec_func(ex, st, ctx, name, args, node):
         return VBool(z3.And(z3.Select(st.heap.DV, r) == z3.Select(pre.heap.DV, r),
                             z3.Select(st.heap.DP, r) == z3.Select(pre.heap.DP, r),
                             z3.Select(st.heap.LS, r) == z3.Select(pre.heap.LS, r)))
+    if name == "unchanged_except":
+        # the container is as in the pre-state except (possibly) at one dict key / list index
+        pre = ctx.pre
+        r = rval(args[0])
+        k = args[1]
+        dvn, dvo = z3.Select(st.heap.DV, r), z3.Select(pre.heap.DV, r)
+        dpn, dpo = z3.Select(st.heap.DP, r), z3.Select(pre.heap.DP, r)
+        lsn, lso = z3.Select(st.heap.LS, r), z3.Select(pre.heap.LS, r)
+        ks = b.dkey(k)
+        qi = z3.Const("q!ue", I)
+        idx = as_int(k)
+        idx = z3.If(idx < 0, idx + z3.Length(lso), idx)
+        return VBool(z3.And(dvn == z3.Store(dvo, ks, z3.Select(dvn, ks)), dpn == z3.Store(dpo, ks, z3.Select(dpn, ks)),
+                            z3.Or(lsn == lso,
+                                  z3.And(z3.Length(lsn) == z3.Length(lso),
+                                         z3.ForAll([qi], z3.Implies(z3.And(qi >= 0, qi < z3.Length(lso), qi != idx),
+                                                                    lsn[qi] == lso[qi]))))))
+    if name == "isemptydict":
+        v = args[0]
+        return VBool(z3.And(is_Ref(v), ty(rval(v)) == T_DICT, z3.Select(st.heap.DP, rval(v)) == EMPTY_KP))
+    if name == "isfalse":
+        v = args[0]
+        return VBool(z3.And(is_Bool(v), z3.Not(bval(v))))
     if name == "heap_unchanged":
         return VBool(st.heap.eq(ctx.pre.heap))
     if name == "dumps":
